@@ -256,7 +256,7 @@ package sugardb
 //@ func (*SugarDB).getCommand trusted props C07
 //@   modifies nothing
 
-//@ func (*SugarDB).handleCommand props C07,C20,C02
+//@ func (*SugarDB).handleCommand props C07,C20,C02,C12
 //@   requires ctx != nil && (replay ==> hasdb(ctx))
 //@   assert @getHandlerFuncParams#0 {C20,C02} handler-db: hasdb(arg1) && dbof(arg1) == old(cmddb(server, ctx, conn, replay, embedded))
 //@   assert @getHandlerFuncParams#0 {C07} local-only-if-unreplicated: standalone(server) || !synchronize
